@@ -202,6 +202,8 @@ def cyc (l : List Nat) (n : Nat) : List Nat :=
 /-- the program of one scenario operation; `none` = not a valid scenario -/
 def opProgram (op : SOp) (w : World) : Option (M Ret × World) := do
   let a := op.args
+  -- active mode on a closed control socket: `get_local_endpoint()` fails before anything else happens (see Driver/E2e.lean)
+  if (op.name = "get" || op.name = "put" || op.name = "list") && !w.connected && w.mode == .active then pure (throwE, w) else
   match op.name with
   | "connect" =>
     let host ← hexArg a 0
